@@ -26,8 +26,12 @@ R10.9  the per-rank `case` switch is generated whenever one entry of the
        str / dict entries)
 R10.10 the shell variable the per-rank `case "$V" in` switch reads is the one
        every launcher's get_rank_cmd exports and _get_rank_ids insists on
+R10.11 an `export X=` line of _get_rp_env whose value may hold `$Y` (a string
+       constant on the way into the value refers to it) follows `export Y=`
 (R10.3 also: the named environment is sourced before the environment exports;
- the form of the stdout / stderr file name is decided by a test on that name)
+ the form of the stdout / stderr file name is decided by a test on that name -
+ also when the names are set in a loop over a literal table and through a
+ helper, whose return values and tests are read in terms of the arguments)
 """
 
 import ast
@@ -2205,6 +2209,45 @@ def key_text(e, env, defs, _seen=()):
     return None
 
 
+def relevant_tests(h, rstmts, vals, defs):
+    """the tests of helper h which decide what the value expressions `vals`
+    of its return statements evaluate to: the tests the return statements are
+    control dependent on, and those which the bindings of the locals the
+    values are computed from are control dependent on"""
+    g = cfg_of(h)
+    smap = I.stmt_node_map(g)
+    names, todo = set(), list(vals)
+    while todo:
+        e = todo.pop()
+        for n in ast.walk(e):
+            if isinstance(n, ast.Name) and n.id in defs and \
+                    n.id not in names:
+                names.add(n.id)
+                todo += defs[n.id]
+    stmts = list(rstmts)
+    for n in walk(h.node):
+        if isinstance(n, (ast.Assign, ast.AugAssign, ast.AnnAssign)):
+            tg = n.targets if isinstance(n, ast.Assign) else [n.target]
+            if any(x in names for t in tg for x in stores_in_target(t)):
+                stmts.append(n)
+        elif isinstance(n, ast.For) and \
+                any(x in names for x in stores_in_target(n.target)):
+            stmts.append(n)
+    out, seen = [], set()
+    for st in stmts:
+        # (a `for` statement is mapped by its target / iterable)
+        node = smap.get(id(st.target if isinstance(st, ast.For) else st))
+        if node is None:
+            raise AnalysisError('UNRECOGNISED-IDIOM %s: statement `%s`'
+                                % (h.where, short(st, 50)))
+        for tid, lab in guards(g, node.id):
+            t = g.nodes[tid].ast
+            if id(t) not in seen:
+                seen.add(id(t))
+                out.append(t)
+    return out
+
+
 class CallLeaves(Leaves):
     """Leaves which looks through calls of helpers defined in the package: the
     sources of `self._helper(a, b)` are the sources of the helper's return
@@ -2234,7 +2277,7 @@ class CallLeaves(Leaves):
                 return got
         return Leaves.of(self, expr, seen)
 
-    def through(self, call, seen):
+    def through(self, call, seen, comp=None):
         if self.depth >= 3:
             return None
         fn = call.func
@@ -2281,20 +2324,35 @@ class CallLeaves(Leaves):
                 else:
                     out.add(leaf)
             return out
+        # (one component of a helper which returns tuples of that length)
+        rstmts = [r for r in walk(h.node)
+                  if isinstance(r, ast.Return) and r.value is not None]
+        if comp is not None and all(
+                isinstance(r.value, ast.Tuple) and
+                len(r.value.elts) == comp[1] and
+                not any(isinstance(x, ast.Starred) for x in r.value.elts)
+                for r in rstmts):
+            vals = [r.value.elts[comp[0]] for r in rstmts]
+        else:
+            vals = [r.value for r in rstmts]
         got = set()
-        for v in rets:
+        for v in vals:
             got |= mapped(Lh.of(v))
-        tests = []
-        for n in walk(h.node):
-            if isinstance(n, (ast.If, ast.While, ast.IfExp, ast.Assert)):
-                tests.append(n.test)
-            elif isinstance(n, ast.comprehension):
-                tests += n.ifs
-        for t in tests:
+        for t in relevant_tests(h, rstmts, vals, Lh.defs):
             self.tests.append((h, t, mapped(Lh.of(t))))
         for hh, t, lv in Lh.tests:
             self.tests.append((hh, t, mapped(lv)))
         return got
+
+    def of_component(self, expr, i, n):
+        """sources of element i of the n-tuple which expr evaluates to"""
+        if isinstance(expr, (ast.Tuple, ast.List)) and len(expr.elts) == n:
+            return self.of(expr.elts[i])
+        if isinstance(expr, ast.Call):
+            got = self.through(expr, frozenset(), (i, n))
+            if got is not None:
+                return got
+        return self.of(expr)
 
 
 def std_names(prog, rep, rid):
@@ -2308,14 +2366,14 @@ def std_names(prog, rep, rid):
         pairs = []
         for t in a.targets:
             if isinstance(t, ast.Subscript):
-                pairs.append((t, a.value))
+                pairs.append((t, a.value, None))
+            elif isinstance(t, (ast.Tuple, ast.List)) and not any(
+                    isinstance(x, ast.Starred) for x in t.elts):
+                pairs += [(x, a.value, (i, len(t.elts)))
+                          for i, x in enumerate(t.elts)]
             elif isinstance(t, (ast.Tuple, ast.List)):
-                if isinstance(a.value, (ast.Tuple, ast.List)) and \
-                        len(a.value.elts) == len(t.elts):
-                    pairs += list(zip(t.elts, a.value.elts))
-                else:
-                    pairs += [(x, a.value) for x in t.elts]
-        for t, v in pairs:
+                pairs += [(x, a.value, None) for x in t.elts]
+        for t, v, comp in pairs:
             k = key_text(t.slice, env, L0.defs) \
                 if isinstance(t, ast.Subscript) else None
             if k not in STD_KEYS:
@@ -2323,7 +2381,7 @@ def std_names(prog, rep, rid):
             seen.add(k)
             which = k[:6]
             L = L0.bound(env)
-            got = L.of(v)
+            got = L.of(v) if comp is None else L.of_component(v, *comp)
             req = 'task/description/%s' % which
             other = 'task/description/%s' % ('stderr' if which == 'stdout'
                                              else 'stdout')
@@ -2348,8 +2406,10 @@ def std_names(prog, rep, rid):
             if node is None:
                 raise AnalysisError('UNRECOGNISED-IDIOM %s: statement `%s`'
                                     % (f.where, short(a, 50)))
-            tests = [(f, g.nodes[tid].ast, L.of(g.nodes[tid].ast))
-                     for tid, lab in guards(g, node.id)]
+            # (tests which the store, or the binding of a local the value is
+            # computed from, is control dependent on)
+            tests = [(f, t, L.of(t))
+                     for t in relevant_tests(f, [a], [v], L.defs)]
             tests += L.tests
             wrong = [(h, t) for h, t, lv in tests
                      if other in lv and req not in lv]
@@ -4630,7 +4690,9 @@ def run(prog, rep, tier):
         'a dict; relative / absolute form of the stdout (stderr) name is '
         'decided by tests on that name; the rank command of every launcher '
         'of the factory table exports the variable which the per-rank '
-        '`case` switch reads, and _get_rank_ids tests for that export.')
+        '`case` switch reads, and _get_rank_ids tests for that export; an '
+        'export line of _get_rp_env whose value may refer to `$Y` comes after '
+        'the line which exports Y.')
     rep.undecided = ('what bash does with the generated text: `$`, back-ticks '
         'and globs inside sh_quote\'d words (library code), the unquoted '
         'executable and pre/post commands (they are shell text by contract), '
@@ -4901,7 +4963,7 @@ def _corpus():
     here = os.path.dirname(os.path.dirname(os.path.dirname(
         os.path.abspath(__file__))))
     out = []
-    for n in range(1, 11):
+    for n in range(1, 13):
         name = 'C10-r%d' % n
         ed = edits_from_patch(os.path.join(here, 'seeded', name, 'patch.diff'))
         if ed:
@@ -5208,4 +5270,102 @@ SILENT += [
     dict(name='rank variable site: Srun rank command as a list of lines joined', edits=[
         (_SR, "        ret  = 'test -z \"$SLURM_PROCID\" || export RP_RANK=$SLURM_PROCID\\n'\n        ret += 'test -z \"$MPI_RANK\"     || export RP_RANK=$MPI_RANK\\n'\n        ret += 'test -z \"$PMIX_RANK\"    || export RP_RANK=$PMIX_RANK\\n'\n",
               "        lines = ['test -z \"$%s\" || export RP_RANK=$%s' % (v, v)\n                 for v in ('SLURM_PROCID', 'MPI_RANK', 'PMIX_RANK')]\n        ret = '\\n'.join(lines) + '\\n'\n")]),
+]
+
+
+# ---- round 6 (C10-r12, C10-i6): stdout / stderr names set in a loop over a
+# literal table through an extracted helper; define before use among the
+# export lines of _get_rp_env
+_R12  = edits_from_patch(_seeded('C10-r12')) or []
+_I6   = edits_from_patch(_seeded('C10-i6')) or []
+_XP   = "        ret += 'export RP_PILOT_SANDBOX=\"%s\"\\n'     % self.psbox\n"
+_XT   = "        ret += 'export RP_TASK_SANDBOX=\"%s\"\\n'      % sbox\n"
+_XR   = "        ret += 'export RP_REGISTRY_ADDRESS=\"%s\"\\n'  % self.session.reg_addr\n"
+_XID  = "        ret += 'export RP_TASK_ID=\"%s\"\\n'           % tid\n"
+_TGT  = "        if self._prof.enabled:\n            ret += 'export RP_PROF_TGT=\"%s/%s.prof\"\\n' % (sbox, tid)\n        else:\n            ret += 'unset  RP_PROF_TGT\\n'\n\n"
+_SBX  = "            sbox = '$RP_PILOT_SANDBOX%s' % sbox[len(self._pwd):]\n"
+_OUT  = "        if stdout_file[0] != '/':\n            task['stdout_file']       = '%s/%s' % (sbox, stdout_file)\n            task['stdout_file_short'] = '$RP_TASK_SANDBOX/%s' % stdout_file\n        else:\n            task['stdout_file']       = stdout_file\n            task['stdout_file_short'] = stdout_file\n"
+_ERR  = _OUT.replace('stdout', 'stderr')
+_HT   = "    def _handle_task(self, task):\n"
+_IOH  = "    def _io_names(self, sbox, fname):\n        if fname.startswith('/'):\n            return fname, fname\n        return '%s/%s' % (sbox, fname), '$RP_TASK_SANDBOX/%s' % fname\n\n"
+
+MUTATIONS += [] if not _I6 else [
+    dict(name='R10.11 RP_TASK_SANDBOX exported before RP_PILOT_SANDBOX (seed C10-i6)', rules=('R10.11',), edits=_I6),
+]
+MUTATIONS += [
+    dict(name='R10.11 RP_PILOT_SANDBOX exported at the end of the RP environment', rules=('R10.11',), edits=[
+        (_E, _XP, ""),
+        (_E, _TGT + "        return ret\n", _TGT + _XP + "        return ret\n")]),
+    dict(name='R10.11 profile target exported first', rules=('R10.11',), edits=[
+        (_E, _TGT, ""),
+        (_E, _XID, _TGT + _XID)]),
+    dict(name='R10.11 pilot and task sandbox in one piece of text, task sandbox first', rules=('R10.11',), edits=[
+        (_E, _XP + _XT, "        ret += 'export RP_TASK_SANDBOX=\"%s\"\\nexport RP_PILOT_SANDBOX=\"%s\"\\n' % (sbox, self.psbox)\n")]),
+]
+MUTATIONS += [] if not _R12 else [
+    dict(name='R10.3 C10-r12 form: table row of stderr holds the stdout name', rules=('R10.3',), edits=_R12 + [
+        (_P, "                           ('stderr_file', stderr_file)]:", "                           ('stderr_file', stdout_file)]:")]),
+    dict(name='R10.3 C10-r12 form: helper is always handed the stdout name', rules=('R10.3',), edits=_R12 + [
+        (_P, "            io_path = self._get_io_path(sbox, fname)", "            io_path = self._get_io_path(sbox, stdout_file)")]),
+    dict(name='R10.3 C10-r12 form: helper tests the name of the other stream', rules=('R10.3',), edits=_R12 + [
+        (_P, "        if fname[0] == '/':", "        if other[0] == '/':"),
+        (_P, "    def _get_io_path(sbox, fname):", "    def _get_io_path(sbox, fname, other):"),
+        (_P, "            io_path = self._get_io_path(sbox, fname)", "            io_path = self._get_io_path(sbox, fname, stdout_file)")]),
+]
+MUTATIONS += [
+    dict(name='R10.3 extracted name helper is handed stdout for the stderr names', rules=('R10.3',), edits=[
+        (_P, _OUT, "        task['stdout_file'], task['stdout_file_short'] = self._io_names(sbox, stdout_file)\n"),
+        (_P, _ERR, "        task['stderr_file'], task['stderr_file_short'] = self._io_names(sbox, stdout_file)\n"),
+        (_P, _HT, _IOH + _HT)]),
+]
+
+SILENT += [
+    dict(name='export order site: task sandbox exported after the registry address', edits=[
+        (_E, _XT, ""),
+        (_E, _XR, _XR + _XT)]),
+    dict(name='export order site: pilot sandbox exported first of all', edits=[
+        (_E, _XP, ""),
+        (_E, _XID, _XP + _XID)]),
+    dict(name='export order site: braced reference through a hoisted prefix', edits=[
+        (_E, _SBX, "            pre  = '${RP_PILOT_SANDBOX}'\n            sbox = pre + sbox[len(self._pwd):]\n")]),
+    dict(name='export order site: pilot and task sandbox lines in one piece of text', edits=[
+        (_E, _XP + _XT, "        ret += 'export RP_PILOT_SANDBOX=\"%s\"\\nexport RP_TASK_SANDBOX=\"%s\"\\n' % (self.psbox, sbox)\n")]),
+    dict(name='export order site: sandbox lines as a joined list', edits=[
+        (_E, _XP + _XT, "        ret += ''.join(['export RP_PILOT_SANDBOX=\"%s\"\\n' % self.psbox,\n                        'export RP_TASK_SANDBOX=\"%s\"\\n' % sbox])\n")]),
+    dict(name='export order site: profile target set right after the task sandbox', edits=[
+        (_E, _TGT, ""),
+        (_E, _XT, _XT + _TGT)]),
+    dict(name='std site: names from an extracted helper which returns a pair', edits=[
+        (_P, _OUT, "        task['stdout_file'], task['stdout_file_short'] = self._io_names(sbox, stdout_file)\n"),
+        (_P, _ERR, "        task['stderr_file'], task['stderr_file_short'] = self._io_names(sbox, stderr_file)\n"),
+        (_P, _HT, _IOH + _HT)]),
+    dict(name='std site: loop over a dict display, keys by format', edits=[
+        (_P, _OUT, ""),
+        (_P, _ERR, "        for stream, fname in {'stdout': stdout_file, 'stderr': stderr_file}.items():\n            full, brief = self._io_names(sbox, fname)\n            task['%s_file' % stream]       = full\n            task['%s_file_short' % stream] = brief\n"),
+        (_P, _HT, _IOH + _HT)]),
+    dict(name='std site: loop over a zip of two tuples, test inline', edits=[
+        (_P, _OUT, ""),
+        (_P, _ERR, "        for key, fname in zip(('stdout_file', 'stderr_file'),\n                              (stdout_file, stderr_file)):\n            rel = not fname.startswith('/')\n            task[key]            = '%s/%s' % (sbox, fname) if rel else fname\n            task[f'{key}_short'] = '$RP_TASK_SANDBOX/%s' % fname if rel else fname\n")]),
+]
+SILENT += [] if not _R12 else [
+    dict(name='std site: C10-r12 form with the table in a local and keyword arguments', edits=_R12 + [
+        (_P, "        for key, fname in [('stdout_file', stdout_file),\n                           ('stderr_file', stderr_file)]:\n            io_path = self._get_io_path(sbox, fname)\n",
+             "        names = [('stdout_file', stdout_file),\n                 ('stderr_file', stderr_file)]\n        for key, fname in names:\n            io_path = self._get_io_path(fname=fname, sbox=sbox)\n")]),
+]
+
+# (one helper which computes the four names: its tests are read per component)
+_IO4  = "    def _std_names(self, sbox, out, err):\n        if out[0] != '/':\n            o, o_short = '%s/%s' % (sbox, out), '$RP_TASK_SANDBOX/%s' % out\n        else:\n            o, o_short = out, out\n        if err[0] != '/':\n            e, e_short = '%s/%s' % (sbox, err), '$RP_TASK_SANDBOX/%s' % err\n        else:\n            e, e_short = err, err\n        return o, o_short, e, e_short\n\n"
+_IO4C = "        task['stdout_file'], task['stdout_file_short'], \\\n            task['stderr_file'], task['stderr_file_short'] = \\\n            self._std_names(sbox, stdout_file, stderr_file)\n"
+
+MUTATIONS += [
+    dict(name='R10.3 one helper computes the four names: stderr form decided by the stdout name', rules=('R10.3',), edits=[
+        (_P, _OUT, ""), (_P, _ERR, _IO4C),
+        (_P, _HT, _IO4.replace("        if err[0] != '/':", "        if out[0] != '/':") + _HT)]),
+    dict(name='R10.3 one helper computes the four names: short stderr name is the stdout name', rules=('R10.3',), edits=[
+        (_P, _OUT, ""), (_P, _ERR, _IO4C),
+        (_P, _HT, _IO4.replace("            e, e_short = err, err\n", "            e, e_short = err, out\n") + _HT)]),
+]
+SILENT += [
+    dict(name='std site: one helper computes the four names', edits=[
+        (_P, _OUT, ""), (_P, _ERR, _IO4C), (_P, _HT, _IO4 + _HT)]),
 ]
